@@ -15,7 +15,9 @@ MENU = [0x00, 0x01, 0x0A, 0x28, 0x29, 0x64, 0x70, 0x72, 0x73, 0x74, 0x7F, 0x80, 
 # ----------------------------------------------------------------------------- subjects
 def akai_subject(variant):
     """-> (image bytes, layout, items): items = list of dict(name, kind, pcm|None)"""
-    files = [{"name": "KICK", "n": 4200, "chain": [6, 5], "seq": 1},
+    # (KICK carries two timed loops late in its audio and one held loop: a damaged size can end the audio in front of them)
+    files = [{"name": "KICK", "n": 4200, "chain": [6, 5], "seq": 1,
+              "hdr": {"loop_type": 0, "loops": [(4000, 0, 150, 250), (3000, 0, 400, 9999), (0, 0, 0, 0), (2000, 3, 20, 7)]}},
              {"name": "PAD-L", "n": 300, "chain": [7], "seq": 2},
              {"name": "PAD-R", "n": 300, "chain": [8], "seq": 3}]
     if variant >= 1:
@@ -223,7 +225,7 @@ class Check(CheckBase):
     id = "C14"
     level = "fault_enumeration"
     title = "A damaged directory entry affects only that entry"
-    rule = ("AKAI volumes with 3, 4 and 7 files (two names one byte apart at the ends of the directory) (fragmented sample, L/R pair, program, a file filling its last sector): every "
+    rule = ("AKAI volumes with 3, 4 and 7 files (two names one byte apart at the ends of the directory) (fragmented sample with timed and held loops late in its audio, L/R pair, program, a file filling its last sector): every "
             "entry x each of its 24 bytes x value menu (15 values quick / all 256 thorough); Roland performance with 3 samples "
             "(permuted chain, reverse mode behind a leading-cluster offset, release-end mode): every byte of each sample's 32-byte directory record and 48-byte "
             "parameter record x the same menus (thorough: all 256 for sample 1, menu for the others); thorough also all byte "
